@@ -7,6 +7,7 @@ mod fam_fx;
 mod fam_panic;
 mod mon;
 mod mon_c15;
+mod mon_c18;
 mod rng;
 mod stubs;
 
@@ -63,6 +64,7 @@ fn main() {
             let mut rep = mon::Report::default();
             match prop {
                 "C15" => mon_c15::run(&mut rng, n, &mut rep),
+                "C18" => mon_c18::run(&mut rng, n, &mut rep),
                 _ => {
                     eprintln!("no monitor for {}", prop);
                     std::process::exit(2);
